@@ -51,6 +51,8 @@ class Module:
         self.path = path
         self.src = src
         self.tree = ast.parse(src, filename=path)
+        from .lower import lower_module
+        self.lowered = lower_module(self.tree)      # match/case -> if/elif (see lower.py)
         self.digest = hashlib.sha256(src.encode()).hexdigest()[:16]
         self.imports: dict[str, str] = {}
         self.funcs: dict[str, FuncInfo] = {}
